@@ -157,7 +157,7 @@ def extract_schema(tree, rel: str, cls: str) -> Tuple[Dict[str, Tuple[ast.AST, b
     CLOBBERED.pop((rel, cls), None)
     if isinstance(first, ast.Dict):
         add_dict(first)
-    elif canon(first) in ("self.schema", "cls.schema"):
+    elif canon(first) in ("self.schema", "cls.schema", "dict(self.schema)", "self.schema.copy()", "copy.copy(self.schema)", "copy.deepcopy(self.schema)", "dict(cls.schema)"):
         # class-level dict of a base class, then overwritten keys
         add_dict(class_level_literal())
     else:
